@@ -31,6 +31,8 @@
 
 /* ---- seams (see seams.S): every internal dispatched symbol bumps seam_count unless muted */
 volatile int seam_count, seam_mute, st_runs;
+volatile int seam_fault2; /* a second broken primitive at the same time */
+volatile int seam_fault; /* 0 = none; k = the k-th fault seam corrupts its result (stfault command) */
 int inj_aes = -9, inj_sha = -9;
 extern int __real__aes_self_tests(void) __attribute__((weak));
 extern int __real__sha_self_tests(void) __attribute__((weak));
@@ -53,6 +55,48 @@ __wrap__sha_self_tests(void)
         seam_mute--;
         return r;
 }
+/* ---- fault seams: real routine, then one flipped result bit */
+extern void __real__aes_cbc_enc_128(void *in, void *iv, void *keys, void *out, uint64_t len);
+void
+__fault__aes_cbc_enc_128(void *in, void *iv, void *keys, void *out, uint64_t len)
+{
+        __real__aes_cbc_enc_128(in, iv, keys, out, len);
+        if (len)
+                ((uint8_t *) out)[0] ^= 1;
+}
+extern void __real__aes_gcm_enc_128(void *kd, void *cx, uint8_t *out, const uint8_t *in, uint64_t len, uint8_t *iv, const uint8_t *aad,
+                                    uint64_t alen, uint8_t *tag, uint64_t tlen);
+void
+__fault__aes_gcm_enc_128(void *kd, void *cx, uint8_t *out, const uint8_t *in, uint64_t len, uint8_t *iv, const uint8_t *aad, uint64_t alen,
+                         uint8_t *tag, uint64_t tlen)
+{
+        __real__aes_gcm_enc_128(kd, cx, out, in, len, iv, aad, alen, tag, tlen);
+        if (len)
+                out[0] ^= 1;
+        else if (tlen)
+                tag[0] ^= 1;
+}
+extern void __real__XTS_AES_128_enc(uint8_t *k2, uint8_t *k1, uint8_t *tw, uint64_t n, const uint8_t *in, uint8_t *out);
+void
+__fault__XTS_AES_128_enc(uint8_t *k2, uint8_t *k1, uint8_t *tw, uint64_t n, const uint8_t *in, uint8_t *out)
+{
+        __real__XTS_AES_128_enc(k2, k1, tw, n, in, out);
+        if (n >= 16)
+                out[0] ^= 1;
+}
+#define FLUSH_FAULT(alg, ALG)                                                                      \
+        extern ISAL_##ALG##_HASH_CTX *__real__##alg##_ctx_mgr_flush(ISAL_##ALG##_HASH_CTX_MGR *);      \
+        ISAL_##ALG##_HASH_CTX *__fault__##alg##_ctx_mgr_flush(ISAL_##ALG##_HASH_CTX_MGR *m)            \
+        {                                                                                          \
+                ISAL_##ALG##_HASH_CTX *c = __real__##alg##_ctx_mgr_flush(m);                          \
+                if (c)                                                                             \
+                        ((uint8_t *) c->job.result_digest)[0] ^= 1;                                \
+                return c;                                                                          \
+        }
+FLUSH_FAULT(sha1, SHA1)
+FLUSH_FAULT(sha256, SHA256)
+FLUSH_FAULT(sha512, SHA512)
+
 extern int asm_check_self_tests_status(void) __attribute__((weak));
 extern void asm_set_self_tests_status(int) __attribute__((weak));
 extern uint8_t __start_isal_data[], __stop_isal_data[];
@@ -455,12 +499,18 @@ gate_cmd(const cmd *c)
                         *st_word = (int) cmd_i(c, 1); /* direct store: the behaviour starts from this verdict */
                 return 1;
         }
+        if (!strcmp(c->t[0], "stfault")) { /* a broken primitive underneath the real self-tests */
+                seam_fault = (int) cmd_i(c, 1);
+                seam_fault2 = c->n > 2 ? (int) cmd_i(c, 2) : 0;
+                return 1;
+        }
         if (!strcmp(c->t[0], "stinj")) {
                 inj_aes = (int) cmd_i(c, 1);
                 inj_sha = (int) cmd_i(c, 2);
                 ev_begin("StInj");
                 ev_int("aes", inj_aes);
                 ev_int("sha", inj_sha);
+                ev_int("fault", seam_fault * 16 + seam_fault2);
                 ev_end();
                 return 1;
         }
